@@ -314,6 +314,15 @@ func (w *UnchunkWriter) nextPipe(forceNewMessage bool) error {
 	// Lock the readers channel so that it's not closed while waiting on the
 	// select
 	w.readerMu.Lock()
+	// Once the writer is closed the readers channel is closed too, and a
+	// select with both cases ready picks one at random: check closing first so
+	// that the send case can never be chosen on a closed channel.
+	select {
+	case <-w.closing:
+		w.readerMu.Unlock()
+		return io.ErrClosedPipe
+	default:
+	}
 	// Send reader to ChunkerReader
 	select {
 	case <-w.closing:
